@@ -436,7 +436,7 @@ var nestForms = []nestForm{
 		return "function f(n) { " + strings.Repeat("for(x in o)", k) + " { f(n+1) } }\nBEGIN { o = [1]; f(0) }"
 	}, false},
 	{"for3", func(k int) string {
-		return "function f(n) { " + strings.Repeat("for(;;)", k) + " { f(n+1) } }\nBEGIN { f(0) }"
+		return "function f(n) { " + strings.Repeat("for(z=0;1;1)", k) + " { f(n+1) } }\nBEGIN { f(0) }"
 	}, false},
 	{"match", func(k int) string {
 		return "function f(n) { return " + strings.Repeat("match(1){_=>", k) + "f(n+1)" + strings.Repeat("}", k) + " }\nBEGIN { f(0) }"
@@ -655,4 +655,42 @@ func checkC01StrayAfterLoop(c *Ctx) {
 				"why": "a break/continue outside every loop must not surface as an error of its own"})
 		}
 	})
+}
+
+// The nesting limit reached exactly at each kind of statement / expression: the padding shifts the
+// point at which the limit falls through the body of f, level by level.
+func checkC01LimitLandsOn(c *Ctx) {
+	pool := c.Pool()
+	inner := []string{"return", "return 1", "break", "continue", "next", "exit", "print 1", "x = [1, {a: 2}]", "y++", "q.push(1)", "for (z = 0; 0; 0) { }"}
+	var jobs []Job
+	rec := strings.Repeat("!", 45)
+	for _, in := range inner {
+		body := "{ if (1) { while (1) { for (q in [[1]]) { match (1) { _ => {\n " + in + "\n return } } } return } } }"
+		if in == "break" || in == "continue" {
+			body = "{ if (1) { while (1) { for (q in [[1]]) { match (1) { _ => { " + in + " } } return } return } } }"
+		}
+		for pad := 0; pad <= 60; pad++ {
+			if !c.Thorough() && in != "return" && pad%4 != int(c.Seed)%4 {
+				continue
+			}
+			prog := "function f() " + body + "\nfunction g(n) { if (n == 0) { x = " + strings.Repeat("!", pad) + " f() } else { x = " + rec + " g(n - 1) } }\n{ g(2940); print 1 }\n"
+			jobs = append(jobs, Job{Kind: "run", Prog: []byte(prog), Files: []FileIn{{Name: "in.json", Data: []byte("[1]")}}, Budget: 5_000_000, Tag: fmt.Sprintf("%s pad=%d", in, pad)})
+		}
+	}
+	landed := 0
+	pool.Map(jobs, func(i int, r Result) {
+		switch r.Class {
+		case "ok", "runtime":
+			if r.Class == "runtime" {
+				landed++
+			}
+			c.Case("lands:"+jobs[i].Tag, r.Class == "runtime")
+		case "budget", "timeout":
+			c.Count("inconclusive", 1)
+		default:
+			c.Violation("limit-lands-"+r.Class, map[string]any{"case": jobs[i].Tag, "program_head": firstN(string(jobs[i].Prog), 300), "got_class": r.Class, "got_err_type": r.ErrType, "got_err": r.ErrMsg, "detail": firstN(r.Detail, 1500),
+				"why": "the nesting limit must be reported as a runtime error whichever statement or expression reaches it"})
+		}
+	})
+	c.Set("limit_lands_on_refusals", landed)
 }
